@@ -78,7 +78,7 @@ class Gen:
                   "switch": 0.12, "pipes": 0.3, "prefixes": 0.25,
                   "macros": 0.0, "pyforms": 0.0, "i18n": 0.0,
                   "entities": 0.0, "code": 0.0, "mutlit": 0.0,
-                  "markers": 0.0}
+                  "markers": 0.0, "attr_default_interp": 0.0}
         self.o.update(opts or {})
         self.nsite = 0
         self.sites: dict[str, dict] = {}     # str(k) -> default value spec
@@ -431,7 +431,11 @@ class Gen:
                                          self.expr("attr")])
         if el["static"] and ch.coin(0.2) and budget_left:
             name, parts = el["static"][ch.choose(len(el["static"]))]
-            if not any(a[0] == name for a in el["attributes"]):
+            if not any(a[0] == name for a in el["attributes"]) or \
+                    (o.get("attr_default_interp") and
+                     ch.coin(o["attr_default_interp"])):
+                # (an interpolated static attribute that tal:attributes
+                # overrides: its ${} is the attribute's default value)
                 parts.append(["expr", self.probe("interp")])
         if has_on_error:
             t = ch.choose(6)
